@@ -412,4 +412,66 @@ def r20_7(ctx):
             raise AnalysisError(f"Theme.from_file: ConfigParser option `{k.arg}` changes the grammar; the round-trip clause is not decided for it")
 
 
-RULES = [r20_1, r20_2, r20_3, r20_4, r20_5, r20_6, r20_7]
+def r20_8(ctx):
+    ctx.rule("R20.8", "no stale lookups: if Console.get_style memoises resolved names in a container on the console (a subscript store into self.<attr> inside get_style), every Console method that changes the theme stack - a call of a state-changing ThemeStack method on self._theme_stack (push_theme, pop_theme, ...) - also empties that container on every path; a cache cleared on push but not on pop keeps answering with the popped theme's styles")
+    cons = ctx.repo.cls("console:Console")
+    gs = cons.method("get_style")
+    ts = ctx.repo.cls("theme:ThemeStack")
+    if gs is None or ts is None:
+        raise AnchorVanished("Console.get_style / ThemeStack not found")
+    caches = set()
+    for x in walk_local(gs.node):
+        if isinstance(x, ast.Assign):
+            for t in x.targets:
+                if isinstance(t, ast.Subscript) and is_attr_of(t.value, "self"):
+                    caches.add(t.value.attr)
+        if isinstance(x, ast.Call) and isinstance(x.func, ast.Attribute) and x.func.attr in ("setdefault", "update") and is_attr_of(x.func.value, "self"):
+            caches.add(x.func.value.attr)
+    if not caches:
+        ctx.ok(gs.where, "get_style keeps no per-console cache of resolved names", gs.fq)
+        return
+    # state-changing methods of ThemeStack: store to a self attribute or mutate one of its containers
+    MUT = ("append", "pop", "extend", "insert", "clear", "remove", "update")
+    mutators = set()
+    for name, lst in ts.methods.items():
+        if name == "__init__":
+            continue
+        for q in lst:
+            for x in walk_local(q.node):
+                if isinstance(x, (ast.Assign, ast.AugAssign)) and any(is_attr_of(t, "self") or (isinstance(t, ast.Subscript) and is_attr_of(t.value, "self")) for t in (x.targets if isinstance(x, ast.Assign) else [x.target])):
+                    mutators.add(name)
+                if isinstance(x, ast.Call) and isinstance(x.func, ast.Attribute) and x.func.attr in MUT and is_attr_of(x.func.value, "self"):
+                    mutators.add(name)
+                if isinstance(x, ast.Delete):
+                    mutators.add(name)
+    ctx.floor(len(mutators), 2, "state-changing ThemeStack methods")
+    n = 0
+    for name, lst in cons.methods.items():
+        for q in lst:
+            g = None
+            for x in walk_local(q.node):
+                if isinstance(x, ast.Call) and isinstance(x.func, ast.Attribute) and x.func.attr in mutators and norm(x.func.value) == "self._theme_stack":
+                    if g is None:
+                        g = cfgmod.build(q.node)
+                    st = x
+                    while not isinstance(st, ast.stmt):
+                        st = q.module.parent_of[st]
+                    for cache in sorted(caches):
+                        n += 1
+                        clears = set()
+                        for nd in g.stmt_nodes():
+                            if nd.kind == "stmt" and nd.stmt is not None and not isinstance(nd.stmt, (ast.With, ast.Try, ast.If, ast.For, ast.While)):
+                                for c in ast.walk(nd.stmt):
+                                    if isinstance(c, ast.Call) and isinstance(c.func, ast.Attribute) and c.func.attr == "clear" and is_attr_of(c.func.value, "self", cache):
+                                        clears.add(nd.id)
+                                if isinstance(nd.stmt, ast.Assign) and any(is_attr_of(t, "self", cache) for t in nd.stmt.targets):
+                                    clears.add(nd.id)
+                                if isinstance(nd.stmt, ast.Delete) and any(isinstance(t, ast.Subscript) and is_attr_of(t.value, "self", cache) for t in nd.stmt.targets):
+                                    clears.add(nd.id)
+                        ok = bool(clears) and all(g.must_pass(nid, clears, {g.exit}) is None or any(nid in g.reach([c_]) for c_ in clears) for nid in g.nodes_of(st))
+                        ctx.check(ok, q.fq, short(x), f"{q.module.relpath}:{x.lineno}", f"self.{cache} is emptied whenever `{short(x)}` changes the theme stack",
+                                  f"`{short(x)}` changes the theme stack but Console.{name} does not empty self.{cache}, the cache get_style answers from: a name looked up while the theme was pushed keeps resolving to that theme's entry after the pop")
+    ctx.floor(n, 1, "theme-stack changes in Console checked against the get_style cache")
+
+
+RULES = [r20_1, r20_2, r20_3, r20_4, r20_5, r20_6, r20_7, r20_8]
